@@ -75,7 +75,7 @@ PROPS["C08"] = dict(
     technique="model-based PBT (rapid): fold-oldest-to-newest map oracle vs stacked reader / merger, on disk and on slice-backed inputs",
     rule=("case = 1..6 tables over <=13 adversarial keys (incl. the empty key, also handed over as nil the way table readers produce it) with "
           "nil (tombstone) / empty / non-empty values, empty tables and keys present in all tables; kind = stacked reader (Get, Contains, Scan, "
-          "ScanStartingAt, ScanRange over all bound pairs; in a third of these a contiguous run of >=2 tables with live values only is first stacked into an inner stacked reader that takes their place) | plain Merge on disjoint inputs | MergeCompact with each provided reduction; level = "
+          "ScanStartingAt, ScanRange over all bound pairs; in a third of these a contiguous run of >=2 tables with live values only is first stacked into an inner stacked reader, wrapped with the metadata a table of that content would have, that takes their place) | plain Merge on disjoint inputs | MergeCompact with each provided reduction; level = "
           "real tables on disk (generated options/loaders, merge output written and read back) | slice-backed readers; non-trivial = >=2 tables "
           "sharing a key with different values and a tombstone over a live value or vice versa; distinct = distinct case JSON"),
     level_text=("Results are compared with the latest-wins fold of the inputs in both directions (nothing missing, nothing extra, value of the right key). "
